@@ -1,6 +1,6 @@
 (** C05 on the wire — proofs about Model/VaryWire.v: what [SendKind::send] leaves of the [vary] header. *)
 From Coq Require Import Lia ZifyBool ZifyNat ZifyN.
-From KV Require Import Bytes RustInt Range CacheControl Cache Fixture RustStd Vary VaryProofs VaryWire.
+From KV Require Import Bytes RustInt Range CacheControl Cache CacheProofs Fixture RustStd Vary VaryProofs VaryWire.
 Open Scope N_scope.
 
 Lemma assoc_filter_other k n (l : list (bytes * bytes)) :
@@ -393,3 +393,180 @@ Definition ims_history_out : xval :=
        XL [XN 200; XL [XL [XB (B "vary"); XB (B "accept-encoding, range, x-a")]]; XB (B "T0|zz"); XN 1; XB (B "T0|zz"); XL [XB (B "h0")]] ].
 Lemma ims_unselected_variant : run_vary ims_history = ims_history_out.
 Proof. vm_compute. reflexivity. Qed.
+
+(** ------------------------------------------------------------------------------------------
+    If-Modified-Since over histories: a client that sends back the date it was given for the same URL and
+    the same transformed tuple is told "not modified" only while the server would still serve it its copy.
+    ------------------------------------------------------------------------------------------ *)
+Section Honest.
+  Variable hstate : Type.
+  Variable compute : hstate -> request -> bool -> fat * hstate * list bytes.
+  Variable cache_on : bool.
+  Variable ims_on : bool.
+  Variable parse_ims : bytes -> option Z.
+  Variable sanitize_ok : request -> bool.
+  Variable prime : request -> request.
+  Variable negotiate : request -> fat -> option (N * bytes).
+  Variable rules_of : bytes -> list rule.
+  Variable dbg : bool.
+
+  Notation own := (own_tuple rules_of).
+  Notation stepX := (stepV hstate compute cache_on ims_on parse_ims sanitize_ok prime negotiate rules_of dbg).
+  Notation run_stateX := (runV_state hstate compute cache_on ims_on parse_ims sanitize_ok prime negotiate rules_of dbg).
+
+  (** every request of the history happens after the date [L] (the clock moves on after the client got its copy) *)
+  Fixpoint later (L now : N) (ops : list op) : Prop :=
+    match ops with
+    | [] => True
+    | OReq _ :: rest => L < now /\ later L now rest
+    | OWait ms :: rest => later L (now + ms) rest
+    | _ :: rest => later L now rest
+    end.
+
+  (** a value that is in the cache after such a history and is dated [L] or earlier was there, under the same
+      key, before it: everything the history stored is dated later *)
+  Lemma stable_back L ops : forall st now st' now',
+    later L now ops -> run_stateX st now ops = Ok (st', now') ->
+    forall k e, pc_find k (fst st') = Some e -> ve_created e <= L -> pc_find k (fst st) = Some e.
+  Proof.
+    induction ops as [|o ops IH]; intros st now st' now' Hl Hr k e Hf Hd; cbn [runV_state] in Hr.
+    - inversion Hr; subst. exact Hf.
+    - destruct (stepX st now o) as [[[[st1 now1] ob] calls] | e0 | ] eqn:S; try discriminate.
+      pose proof (entry_changes_are_dated_lemma hstate compute cache_on ims_on parse_ims sanitize_ok prime negotiate rules_of dbg
+                    st now o st1 now1 ob calls S k) as D.
+      assert (Hl1 : later L now1 ops /\ (match o with OReq _ => L < now | _ => True end)).
+      { destruct o as [r | r | | ms]; cbn [later] in Hl; destruct st as [c hs]; cbn [stepV] in S.
+        - destruct (serveV hstate compute cache_on ims_on parse_ims sanitize_ok prime negotiate rules_of dbg (c, hs) now r)
+            as [[[[st2 rp] lg] cl] | e1 | ]; try discriminate. inversion S; subst. destruct Hl; auto.
+        - inversion S; subst. auto.
+        - inversion S; subst. auto.
+        - inversion S; subst. auto. }
+      destruct Hl1 as [Hl1 Ho].
+      pose proof (IH st1 now1 st' now' Hl1 Hr k e Hf Hd) as F1.
+      destruct D as [E | [E | (e' & E & Ed)]].
+      + rewrite <- E. exact F1.
+      + rewrite E in F1. discriminate.
+      + rewrite E in F1. inversion F1; subst e'.
+        destruct o as [r | r | | ms].
+        * lia.
+        * (* a clear only removes *)
+          destruct st as [c hs]. cbn [stepV] in S. inversion S; subst. cbn [fst] in *.
+          unfold vclear_page in E. rewrite !pc_find_remove in E.
+          destruct (key_eqb k (key_p r)); [discriminate|]. destruct (key_eqb k (key_pq r)); [discriminate|]. exact E.
+        * destruct st as [c hs]. cbn [stepV] in S. inversion S; subst. cbn [fst pc_find] in E. discriminate.
+        * cbn [stepV] in S. inversion S; subst. exact E.
+  Qed.
+
+  Lemma vget_item_found k c now e c' : vget_item k c now = (Some e, c') -> pc_find k c = Some e /\ c' = c.
+  Proof.
+    unfold vget_item. destruct (pc_find k c) as [e0|]; [|discriminate].
+    destruct (vfresh e0 now); intros H; inversion H; subst; auto.
+  Qed.
+  (** the entry a lookup finds sits under one of the request's two keys (and stays there) *)
+  Lemma vlookup_found r c now k e c1 :
+    vlookup r c now = ((k, Some e), c1) -> (k = key_pq r \/ k = key_p r) /\ pc_find k c = Some e /\ pc_find k c1 = Some e.
+  Proof.
+    unfold vlookup. destruct (vget_item (key_pq r) c now) as [[e1|] c2] eqn:G1.
+    - intros H; inversion H; subst. destruct (vget_item_found _ _ _ _ _ G1) as [F ->]. auto.
+    - destruct (vget_item (key_p r) c2 now) as [res2 c3] eqn:G2. intros H; inversion H; subst.
+      destruct (vget_item_found _ _ _ _ _ G2) as [F ->]. split; [auto|]. split; [|exact F].
+      (* the first look-up removed at most the PathQuery key *)
+      unfold vget_item in G1. destruct (pc_find (key_pq r) c) as [e0|] eqn:F0.
+      + destruct (vfresh e0 now); inversion G1; subst. rewrite pc_find_remove in F.
+        destruct (key_eqb (key_p r) (key_pq r)); [discriminate | exact F].
+      + inversion G1; subst. exact F.
+  Qed.
+
+  (** the client holds the response [f] for its transformed tuple, dated [L]: the cache holds, under one of
+      the two keys of the URL, an entry with that variant which is not older than [L] — or no entry at all
+      (the response was not admitted) *)
+  Definition holds_copy (c : vcache) (r : request) (f : fat) (L : N) : Prop :=
+    (exists k0 e0, (k0 = key_pq r \/ k0 = key_p r) /\ pc_find k0 c = Some e0 /\
+                   vr_get_by_request (ve_var e0) r = Ok (Hit (f, own r)) /\ L <= ve_created e0)
+    \/ (pc_find (key_pq r) c = None /\ pc_find (key_p r) c = None).
+  (** a URL is cached under one of its two keys only (hosts whose pages do not switch between the preferences
+      QueryMatters and Full) *)
+  Definition one_key (c : vcache) (r : request) : Prop :=
+    pc_find (key_pq r) c = None \/ pc_find (key_p r) c = None.
+
+  Lemma honest_not_modified L c2 hs2 t1 ops2 c3 hs3 t3 r r' f k e c3' :
+    InvV hstate compute rules_of c2 -> one_key c2 r -> holds_copy c2 r f L ->
+    later L t1 ops2 -> run_stateX (c2, hs2) t1 ops2 = Ok ((c3, hs3), t3) ->
+    path_query r' = path_query r -> own r' = own r ->
+    vlookup r' c3 t3 = ((k, Some e), c3') -> ve_created e <= L ->
+    vr_get_by_request (ve_var e) r' = Ok (Hit (f, own r')).
+  Proof.
+    intros I Hone Hcopy Hl Hr Hpq Hown Hlk Hd.
+    assert (Hp : rq_path r' = rq_path r) by (apply path_query_path; exact Hpq).
+    assert (Kpq : key_pq r' = key_pq r) by (unfold key_pq; rewrite Hpq; reflexivity).
+    assert (Kp : key_p r' = key_p r) by (unfold key_p; rewrite Hp; reflexivity).
+    destruct (vlookup_found _ _ _ _ _ _ Hlk) as (Hk & F3 & _). rewrite Kpq, Kp in Hk.
+    pose proof (stable_back L ops2 (c2, hs2) t1 (c3, hs3) t3 Hl Hr k e F3 Hd) as F2. cbn [fst] in F2.
+    destruct Hcopy as [(k0 & e0 & Hk0 & F0 & Hhit & _) | [N1 N2]].
+    2:{ destruct Hk as [-> | ->]; congruence. }
+    assert (k = k0).
+    { destruct Hk as [-> | ->], Hk0 as [-> | ->]; try reflexivity; destruct Hone as [N | N]; congruence. }
+    subst k0. rewrite F0 in F2. inversion F2; subst e0.
+    destruct (I k e F0) as (_ & _ & Hrefs & _).
+    assert (Hkp : kpath k = rq_path r) by (destruct Hk as [-> | ->]; [apply kpath_pq | apply kpath_p]).
+    assert (E : headers_for_request (vr_refs (ve_var e)) r' = headers_for_request (vr_refs (ve_var e)) r).
+    { rewrite Hrefs, Hkp. unfold own_tuple in Hown. rewrite Hp in Hown. exact Hown. }
+    rewrite (get_by_request_same_tuple (ve_var e) r' r E), Hhit, Hown. reflexivity.
+  Qed.
+
+  (** how a client comes to hold a copy: served from the cache (the date it is given is the entry's) ... *)
+  Lemma hit_gives_copy r c now k e c1 f :
+    vlookup r c now = ((k, Some e), c1) -> vr_get_by_request (ve_var e) r = Ok (Hit (f, own r)) ->
+    holds_copy c1 r f (ve_created e).
+  Proof.
+    intros Hlk Hhit. destruct (vlookup_found _ _ _ _ _ _ Hlk) as (Hk & _ & F1).
+    left. exists k, e. repeat split; try assumption. lia.
+  Qed.
+  (** ... or computed and admitted to the cache (the date it is given is the time of the step, which is the new entry's) *)
+  Lemma stored_gives_copy c1 hs' now r f lg lm_of cached st' rp lg' calls :
+    may_store cache_on (rq_method r) f = true ->
+    new_and_cache hstate cache_on negotiate rules_of dbg c1 hs' now r f lg lm_of cached = Ok (st', rp, lg', calls) ->
+    holds_copy (fst st') r f now /\ rp = finishV negotiate r f (own r) (lm_of f) cached.
+  Proof.
+    intros Hm. unfold new_and_cache. rewrite vr_new_eq. cbn [vr_first vr_resps]. rewrite Hm.
+    intros H; inversion H; subst; clear H. cbn [fst]. split; [|reflexivity].
+    left. exists (insert_key r f), (mkVE (mkVaried (rules_of (rq_path r)) [(f, headers_for_request (rules_of (rq_path r)) r)]) now (lifetime_ms f)).
+    split; [unfold insert_key; destruct (f_spref f =? SP_QUERY); auto|].
+    split; [rewrite pc_find_insert, key_eqb_refl; reflexivity|].
+    cbn [ve_var ve_created]. split; [|lia].
+    destruct (get_by_request_sorted (mkVaried (rules_of (rq_path r)) [(f, headers_for_request (rules_of (rq_path r)) r)]) r)
+      as [(f0 & Hv & _ & Eg) | (Hv & _)]; cbn [vr_resps vr_refs] in *.
+    - repeat constructor.
+    - unfold vfind in Hv. cbn [find snd] in Hv. rewrite hc_eqb_refl in Hv. cbn in Hv. inversion Hv; subst f0. exact Eg.
+    - unfold vfind in Hv. cbn [find snd] in Hv. rewrite hc_eqb_refl in Hv. discriminate.
+  Qed.
+  (** ... or computed and pushed into the entry it missed in (the date it is given is the old entry's; the
+      entry that now holds its variant is dated with the time of the step) *)
+  Lemma pushed_gives_copy c hs now r ok k e position headers st' rp lg calls :
+    InvV hstate compute rules_of c -> (k = key_pq r \/ k = key_p r) ->
+    pc_find k c = Some e -> vfresh e now = true -> ve_created e <= now ->
+    vr_get_by_request (ve_var e) r = Ok (Miss position headers) ->
+    vary_missing hstate compute cache_on ims_on negotiate rules_of dbg c hs now r ok k position headers = Ok (st', rp, lg, calls) ->
+    let f := fst (fst (compute hs r ok)) in
+    holds_copy (fst st') r f (ve_created e) /\ rp = finishV negotiate r f (own r) ims_on true.
+  Proof.
+    intros I Hk F Fr Hd Hmiss. unfold vary_missing.
+    destruct (compute hs r ok) as [[f hs'] lg0] eqn:C. cbn [fst].
+    assert (L : vrelookup k c now = ((k, Some e), c)) by (unfold vrelookup, vget_item; rewrite F, Fr; reflexivity).
+    rewrite L. destruct (I k e F) as (S & _ & Hrefs & _).
+    assert (Hkp : kpath k = rq_path r) by (destruct Hk as [-> | ->]; [apply kpath_pq | apply kpath_p]).
+    destruct (get_by_request_sorted (ve_var e) r S) as [(f0 & _ & _ & Eg) | (_ & LL & G & El & Eg & FL & FG)]; [congruence|].
+    rewrite Eg. rewrite (push_at dbg (ve_var e) LL G f _ El) by apply headers_for_request_length.
+    intros H; inversion H; subst; clear H. cbn [fst].
+    assert (Ht : headers_for_request (vr_refs (ve_var e)) r = own r) by (rewrite Hrefs, Hkp; reflexivity).
+    split; [|rewrite Ht; reflexivity].
+    left. eexists k, _. split; [exact Hk|]. split; [rewrite pc_find_insert, key_eqb_refl; reflexivity|].
+    cbn [ve_var ve_created]. split; [|exact Hd].
+    set (v' := mkVaried (vr_refs (ve_var e)) (LL ++ (f, headers_for_request (vr_refs (ve_var e)) r) :: G)).
+    assert (S' : vsorted (vr_resps v')) by (apply insert_sorted; [rewrite <- El; exact S | exact FL | exact FG]).
+    destruct (get_by_request_sorted v' r S') as [(f1 & Hv & _ & Eg1) | (Hv & _)]; cbn [vr_resps vr_refs v'] in Hv.
+    - rewrite (vfind_insert LL G f _ _ FL), hc_eqb_refl in Hv. inversion Hv; subst f1.
+      cbn [vr_refs v'] in Eg1. rewrite Ht in Eg1. exact Eg1.
+    - rewrite (vfind_insert LL G f _ _ FL), hc_eqb_refl in Hv. discriminate.
+  Qed.
+End Honest.
